@@ -441,6 +441,17 @@ Definition oracle_C12 (sc : scase) (log : list ev) : bool :=
       end
   end.
 
+(* ---------- C10: the limit applies to the startup packet as to every other message ---------- *)
+(* a startup packet the protocol definition accepts (length within the limit, parameter
+   block well formed) on a server without password authentication whose middlewares all
+   succeed must be served: the first ReadyForQuery is sent *)
+Definition startup_served (sc : scase) (log : list ev) : bool :=
+  match startup_pairs sc, sc_auth sc with
+  | Some _, None => if forallb (fun ok : bool => ok) (sc_mws sc) then existsb is_ready (outs log) else true
+  | _, _ => true
+  end.
+Definition oracle_C10 (sc : scase) (log : list ev) : bool := oracle_turns sc log && startup_served sc log.
+
 Fixpoint list_z_eqb (a b : list Z) : bool :=
   match a, b with
   | [], [] => true
